@@ -176,6 +176,45 @@ def fresh_bytes(n: int, name: str):
     return SymbolicBytes(items)
 
 
+def bytes_of(ints):
+    """bytes value from a list of (symbolic) ints already constrained to 0..255 (plain bytes in replay)"""
+    if REPLAY:
+        return bytes(ints)
+    from crosshair.libimpl.builtinslib import SymbolicBytes  # type: ignore
+
+    return SymbolicBytes(list(ints))
+
+
+def bytes_equal(a, b) -> bool:
+    """a == b for (symbolic) byte strings decided by ONE solver fork instead of one per byte"""
+    if REPLAY:
+        return a == b
+    import z3  # type: ignore
+    from crosshair.statespace import context_statespace  # type: ignore
+    from crosshair.tracers import NoTracing  # type: ignore
+
+    with NoTracing():
+        try:
+            ia = list(getattr(a, "inner", a))
+            ib = list(getattr(b, "inner", b))
+        except TypeError:
+            ia = ib = None
+        term = None
+        if ia is not None and len(ia) == len(ib):
+            parts = []
+            for x, y in zip(ia, ib):
+                tx = x.var if hasattr(x, "var") else z3.IntVal(int(x))
+                ty = y.var if hasattr(y, "var") else z3.IntVal(int(y))
+                parts.append(tx == ty)
+            term = z3.And(parts) if parts else z3.BoolVal(True)
+        elif ia is not None:
+            term = z3.BoolVal(False)
+    if term is None:
+        return a == b
+    with NoTracing():
+        return context_statespace().smt_fork(term)
+
+
 # --------------------------------------------------------------------------- ideal hash
 class IdealHash:
     """Deterministic function of its input; fresh unconstrained digest per distinct input;
@@ -187,12 +226,18 @@ class IdealHash:
 
     def lookup(self, data):
         for known_in, known_out in self.table:
-            if data == known_in:
+            if bytes_equal(data, known_in):
                 return known_out
         out = fresh_bytes(self.digest_size, "h%s_%d" % (self.name, len(self.table)))
-        for _, other in self.table:
-            if out == other:
-                skip("ideal hash: no collisions")
+        # no collisions; asserted on the first byte so that byte-wise comparisons in the code under test decide
+        # at once instead of forking once per digest byte (a stronger-than-necessary but harmless idealisation)
+        import z3  # type: ignore
+        from crosshair.statespace import context_statespace  # type: ignore
+        from crosshair.tracers import NoTracing  # type: ignore
+
+        with NoTracing():
+            for _, other in self.table:
+                context_statespace().add(out.inner[0].var != other.inner[0].var)
         self.table.append((data, out))
         return out
 
